@@ -78,6 +78,32 @@ fn main() {
                     }
                 }
             }
+            // udt <struct kind> <a> <b> <c> <comma separated database field names>: derived SerializeValue against that UDT
+            "udt" => {
+                use scylla_cql_core::frame::response::result::UserDefinedType;
+                use scylla_cql_core::serialize::value::SerializeValue;
+                use scylla_cql_core::serialize::writers::CellWriter;
+                use vk_core::c16_types::*;
+                let (x, y, z): (i32, i32, i32) = (a[2].parse().unwrap(), a[3].parse().unwrap(), a[4].parse().unwrap());
+                let ft: Vec<_> = a[5].split(',').map(|n| (Cow::Owned(n.to_string()), ColumnType::Native(NativeType::Int))).collect();
+                let typ = ColumnType::UserDefinedType {
+                    frozen: false,
+                    definition: std::sync::Arc::new(UserDefinedType { name: "t".into(), keyspace: "k".into(), field_types: ft }),
+                };
+                let mut buf = Vec::new();
+                let w = CellWriter::new(&mut buf);
+                let r = match a[1] {
+                    "S3" => S3 { a: x, b: y, c: z }.serialize(&typ, w).map(|_| ()),
+                    "S3AllowMissingA" => S3AllowMissingA { a: x, b: y, c: z }.serialize(&typ, w).map(|_| ()),
+                    "S3AllowMissingB" => S3AllowMissingB { a: x, b: y, c: z }.serialize(&typ, w).map(|_| ()),
+                    "S3Strict" => S3Strict { a: x, b: y, c: z }.serialize(&typ, w).map(|_| ()),
+                    _ => S3Ordered { a: x, b: y, c: z }.serialize(&typ, w).map(|_| ()),
+                };
+                match r {
+                    Ok(()) => hex(&buf),
+                    Err(_) => "ERR".to_string(),
+                }
+            }
             _ => "UNKNOWN".to_string(),
         })
         .unwrap_or("PANIC".to_string());
